@@ -113,6 +113,13 @@ def pair_tab_api(model, wrap=None, target=None):
     cutoff = int(cutoff)
   if v == "kwargs":
     return cls(potentials=pots, cutoff=cutoff, nr=nr)
+  if v == "amend_after_write" and len(pots) >= 2 and not is_binary(target):
+    # one object used for two outputs: written once with one potential missing, the model is then completed through the
+    # public .potentials list; what the caller writes next must be the table of the COMPLETE model
+    tab = cls(pots[:-1], cutoff, nr)
+    write_tab(tab)
+    tab.potentials.append(pots[-1])
+    return tab
   return cls(pots, cutoff, nr)
 
 
@@ -198,6 +205,8 @@ def vary_containers(model, objs):
   objs = list(objs)
   if v == "tuple":
     return [tuple(o) for o in objs]
+  if v == "amend_after_write":
+    return objs
   for i in [0] + list(range(2, len(objs))):
     seq = objs[i]
     objs[i] = (p for p in seq) if v == "generator" else map(lambda p: p, seq)
@@ -209,7 +218,22 @@ def eam_tab_api(model, wrap=None):
   cls = getattr(eam_tabulation, EAM_CLASSES[model["target"]])
   objs = vary_containers(model, eam_api_objects(model, wrap))
   t = model["tab"]
-  return cls(*objs, float(t["cutoff"]), int(t["nr"]), float(t["cutoff_rho"]), int(t["nrho"]))
+  grid = (float(t["cutoff"]), int(t["nr"]), float(t["cutoff_rho"]), int(t["nrho"]))
+  if model.get("api_containers") == "amend_after_write" and len(objs[0]) >= 1 and len(objs[1]) >= 1 and not is_binary(model["target"]):
+    # one object used for two outputs (see pair_tab_api): first write without the last pair potential and with a stand-in
+    # for the last element, then the model is completed through .potentials / .eam_potentials.  (Not for the Excel targets:
+    # their documented .workbook property is built once and is meant to be kept.)
+    from atsim.potentials import EAMPotential
+    last = objs[1][-1]
+    zero = lambda x: 0.0
+    dens = dict((k_, zero) for k_ in last.electronDensityFunction) if isinstance(last.electronDensityFunction, dict) else zero
+    standin = EAMPotential(last.species, 1, 1.0, zero, dens)
+    tab = cls(objs[0][:-1], objs[1][:-1] + [standin], *objs[2:], *grid)
+    write_tab(tab)
+    tab.potentials.append(objs[0][-1])
+    tab.eam_potentials[-1] = last
+    return tab
+  return cls(*objs, *grid)
 
 
 # ------------------------------------------------------------------ potable main() in-process
